@@ -478,32 +478,39 @@ def fn_genbankFeatureParser_func0 : List Line := [
 /-- `genbankContigParser` — `GenBank.contigField` -/
 def fn_genbankContigParser : List Line := [
   (0, "func", "(gb *GenBank, n0 int) pars.Parser"),
-  (1, "return", "func0")   -- contigField
+  (1, "return", "func1")   -- contigField
 ]
 
-/-- `genbankContigParser/func0` — `GenBank.contigField`: `join(` accession `:` head `..` tail `)` -/
+/-- `genbankContigParser/func0` — `GenBank.contigStop`, the filter handed to `pars.Until` (a4b3f5d; also regenerated as a function: `Gts.Bridge.contigStop_eq`) -/
 def fn_genbankContigParser_func0 : List Line := [
+  (0, "func", "(b0 byte) bool"),
+  (1, "return", "b0 == ':' || b0 == '\\n' || b0 == '\\r'")   -- contigStop: `b == 58 || b == 10 || b == 13`
+]
+
+/-- `genbankContigParser/func1` — `GenBank.contigField`: `join(` accession `:` head `..` tail `)`, the accession and its colon on the line of the field (a4b3f5d) -/
+def fn_genbankContigParser_func1 : List Line := [
   (0, "func", "(state *pars.State, result *pars.Result) error"),
   (1, "if", "v0 := genbankFieldNameParser(\"CONTIG\", n0)(state, result); v0 != nil"),   -- contigField: `fieldName (bs "CONTIG") depth`
   (2, "return", "v0"),   -- contigField: its failure is the field's
   (1, "if", "v1 := pars.String(\"join(\")(state, pars.Void); v1 != nil"),   -- contigField: `lit (bs "join(")`
   (2, "return", "v1"),   -- contigField: fails
-  (1, "if", "v2 := pars.Until(byte(':'))(state, result); v2 != nil"),   -- contigField: `let acc ← untilColon`
-  (2, "return", "v2"),   -- contigField: fails
+  (1, "if", "v2 := pars.Until(func0)(state, result); v2 != nil"),   -- contigField: `let acc ← untilFilter contigStop` (`pars.Until` of a `func(byte) bool` is go-pars `untilFilter`)
+  (2, "return", "v2"),   -- contigField: fails (end of the input in front of a colon or line end)
   (1, "assign", "v3 := string(result.Token)"),   -- contigField: `acc`
-  (1, "parse", "pars.Skip(state, 1)"),   -- contigField: `advance1` (the colon)
-  (1, "if", "v4 := pars.Int(state, result); v4 != nil"),   -- contigField: `let head ← int`
-  (2, "return", "v4"),   -- contigField: fails
-  (1, "assign", "v5 := result.Value.(int)"),   -- contigField: `head`
-  (1, "if", "v6 := pars.String(\"..\")(state, pars.Void); v6 != nil"),   -- contigField: `lit (bs "..")`
-  (2, "return", "v6"),   -- contigField: fails
-  (1, "if", "v7 := pars.Int(state, result); v7 != nil"),   -- contigField: `let tail ← int`
+  (1, "if", "v4 := pars.Byte(':')(state, pars.Void); v4 != nil"),   -- contigField: `lit [58]` (the colon is required; it was `pars.Skip(state, 1)` = `advance1`)
+  (2, "return", "v4"),   -- contigField: fails (the line ends in front of a colon)
+  (1, "if", "v5 := pars.Int(state, result); v5 != nil"),   -- contigField: `let head ← int`
+  (2, "return", "v5"),   -- contigField: fails
+  (1, "assign", "v6 := result.Value.(int)"),   -- contigField: `head`
+  (1, "if", "v7 := pars.String(\"..\")(state, pars.Void); v7 != nil"),   -- contigField: `lit (bs "..")`
   (2, "return", "v7"),   -- contigField: fails
-  (1, "assign", "v8 := result.Value.(int)"),   -- contigField: `tail`
-  (1, "if", "v9 := pars.Byte(')')(state, pars.Void); v9 != nil"),   -- contigField: `lit [41]`
-  (2, "return", "v9"),   -- contigField: fails
+  (1, "if", "v8 := pars.Int(state, result); v8 != nil"),   -- contigField: `let tail ← int`
+  (2, "return", "v8"),   -- contigField: fails
+  (1, "assign", "v9 := result.Value.(int)"),   -- contigField: `tail`
+  (1, "if", "v10 := pars.Byte(')')(state, pars.Void); v10 != nil"),   -- contigField: `lit [41]`
+  (2, "return", "v10"),   -- contigField: fails
   (1, "assign", "gb.Fields.Contig.Accession = v3"),   -- contigField: `contigAcc := acc`
-  (1, "assign", "gb.Fields.Contig.Region = gts.Segment{v5 - 1, v8}"),   -- contigField: `contigHead := head - 1, contigTail := tail`
+  (1, "assign", "gb.Fields.Contig.Region = gts.Segment{v6 - 1, v9}"),   -- contigField: `contigHead := head - 1, contigTail := tail`
   (1, "return", "nil")   -- contigField: `pure (…, true)`
 ]
 
@@ -935,6 +942,7 @@ def fns : List (String × List Line) := [
   ("genbankFeatureParser/func0", fn_genbankFeatureParser_func0),
   ("genbankContigParser", fn_genbankContigParser),
   ("genbankContigParser/func0", fn_genbankContigParser_func0),
+  ("genbankContigParser/func1", fn_genbankContigParser_func1),
   ("makeGenbankOriginParser", fn_makeGenbankOriginParser),
   ("makeGenbankOriginParser/func0", fn_makeGenbankOriginParser_func0),
   ("makeGenbankOriginParser/func1", fn_makeGenbankOriginParser_func1),
